@@ -9,6 +9,7 @@ import (
 	"runtime"
 	"strings"
 	"sync"
+	"sync/atomic"
 	"time"
 
 	"github.com/btcsuite/btcd/btcjson"
@@ -74,6 +75,9 @@ type fakeChain struct {
 	holdAt      int32
 	holdReached chan struct{}
 	holdRelease chan struct{}
+
+	// syncAttempts counts BackEnd() calls = syncWithChain attempts of the wallet (atomic; see wenv.waitSync)
+	syncAttempts int64
 }
 
 // heldRescan is a rescan whose RescanFinished notification the backend has not sent yet.
@@ -152,7 +156,9 @@ func (c *conn) send(n interface{}) bool {
 		return true
 	case <-c.quit:
 		return false
-	case <-time.After(20 * time.Second):
+	case <-time.After(hardLimit(20 * time.Second)):
+		// the wallet's handler loop does not take a notification: it is blocked for good (never on the unchanged tree)
+		noteHardTimeout()
 		return false
 	}
 }
@@ -317,7 +323,7 @@ func (fc *fakeChain) GetBlockHash(height int64) (*chainhash.Hash, error) {
 		reached <- struct{}{}
 		select {
 		case <-release:
-		case <-time.After(30 * time.Second):
+		case <-time.After(10 * time.Minute): // the runner always releases; only a crashed runner would leave it parked
 		}
 		fc.mu.Lock()
 	}
@@ -511,7 +517,8 @@ func (fc *fakeChain) finishHeld() bool {
 	close(h.release)
 	select {
 	case <-h.done:
-	case <-time.After(20 * time.Second):
+	case <-time.After(hardLimit(20 * time.Second)):
+		noteHardTimeout()
 		return false
 	}
 	return fc.send(sentinel{})
@@ -520,7 +527,11 @@ func (fc *fakeChain) finishHeld() bool {
 func (fc *fakeChain) NotifyReceived([]btcutil.Address) error { return nil }
 func (fc *fakeChain) NotifyBlocks() error                    { return nil }
 func (fc *fakeChain) Notifications() <-chan interface{}      { return fc.conn().ntfn }
-func (fc *fakeChain) BackEnd() string                        { return "fake" }
+func (fc *fakeChain) BackEnd() string {
+	// wallet.syncWithChain asks for the backend type first thing (its only caller in package wallet)
+	atomic.AddInt64(&fc.syncAttempts, 1)
+	return "fake"
+}
 func (fc *fakeChain) TestMempoolAccept([]*wire.MsgTx, float64) ([]*btcjson.TestMempoolAcceptResult, error) {
 	return nil, errors.New("fakechain: testmempoolaccept not supported")
 }
